@@ -6,7 +6,7 @@
    parameter order.  That scipy's rvs follows the law it is given is an oracle (statistical backstop in
    the thorough tier); the statistical statement itself is not a theorem. *)
 From Coq Require Import List ZArith QArith Bool String Qabs.
-From GBS Require Import Model.PyStr Model.DistFam Model.Dist Src.SrcDist Proofs.DistP Src.SrcDistLaw Proofs.DistLawSrcP.
+From GBS Require Import Model.PyStr Model.DistFam Model.Dist Src.SrcDist Proofs.DistP Src.SrcDistLaw Proofs.DistLawSrcP Src.SrcDistParams Proofs.DistParamsSrcP.
 Import ListNotations.
 Open Scope Q_scope.
 
@@ -50,6 +50,18 @@ Theorem C09_gauss_shortcut_is_source : forall mu sigma mw,
   gauss_shortcut mu sigma mw = true -> (sigma < 1 # 1000000 /\ Qabs (mu - mw) < 1 # 1000000)%Q.
 Proof. exact gauss_shortcut_sound. Qed.
 Print Assumptions C09_gauss_shortcut_is_source.
+
+(* tie T: which written number becomes which argument of which scipy law, REGENERATED from the six constructors of distribution.py
+   (Src/SrcDistParams.v), is the documented parameter order of the plumbing above *)
+Theorem C09_parameter_order_is_source :
+  (forall mu sigma, plumb FGauss [mu; sigma] = params_Gauss mu sigma) /\
+  (forall lo hi, plumb FUniform [lo; hi] = params_Uniform lo hi) /\
+  (forall Mw Mn, plumb FSchulzZimm [Mw; Mn] = if Qeq_bool (Mw - Mn) 0 then LBad else params_SchulzZimm Mw Mn) /\
+  (forall M D, plumb FLogNormal [M; D] = params_LogNormal M D) /\
+  (forall N, plumb FPoisson [N] = params_Poisson N) /\
+  (forall a, plumb FFlorySchulz [a] = params_FlorySchulz a).
+Proof. exact params_are_source. Qed.
+Print Assumptions C09_parameter_order_is_source.
 
 Example C09_example : stop_index [28; 56; 84; 112] 60 = Some 3%nat.
 Proof. reflexivity. Qed.
